@@ -7,6 +7,7 @@ import (
 	"path/filepath"
 	"sort"
 	"strings"
+	"time"
 
 	"github.com/couchbase/moss"
 	"verifsim/simrt"
@@ -168,6 +169,10 @@ func (e *Exec) crashEnumerate(tier string) {
 		}
 	}
 	for p := 0; p <= len(trace); p++ {
+		if !Deadline.IsZero() && time.Now().After(Deadline) {
+			e.probe("crash-enum-cut-by-budget")
+			break
+		}
 		if p < len(trace) && trace[p].Kind == "MARK" {
 			if trace[p].Mark == "round" {
 				lastMarkJ, lastMarkSynced = trace[p].J, trace[p].Synced
